@@ -65,20 +65,17 @@ def _floordiv(a, b):
 
 
 def round_int(num, den, rounding):
-    """nearest integer to num/den (den concrete > 0)"""
+    """integer nearest to / bounding num/den (den concrete > 0) under a decimal rounding mode"""
     if isinstance(num, int):
-        q, r = _b.divmod(num, den)
-        if rounding == ROUND_HALF_UP:
-            if num >= 0:
-                return q + (1 if 2 * r >= den else 0)
-            return -((-num) // den + (1 if 2 * ((-num) % den) >= den else 0))
-        if 2 * r > den or (2 * r == den and q % 2 == 1):
-            return q + 1
-        return q
+        return _round_int_concrete(num, den, rounding)
     if rounding == ROUND_HALF_UP:  # half away from zero
         if decide(num >= 0):
             return _floordiv(2 * num + den, 2 * den)
         return -_floordiv(-2 * num + den, 2 * den)
+    if rounding == _d.ROUND_HALF_DOWN:  # half toward zero
+        if decide(num >= 0):
+            return -_floordiv(-2 * num + den, 2 * den)
+        return _floordiv(2 * num + den, 2 * den)
     if rounding == ROUND_HALF_EVEN:
         q = _floordiv(num, den)
         r = num - q * den
@@ -87,6 +84,42 @@ def round_int(num, den, rounding):
         if decide(2 * r == den):
             return q + 1 if decide(q % 2 == 1) else q
         return q
+    if rounding == _d.ROUND_FLOOR:
+        return _floordiv(num, den)
+    if rounding == _d.ROUND_CEILING:
+        return -_floordiv(-num, den)
+    if rounding == _d.ROUND_DOWN:  # toward zero
+        return _floordiv(num, den) if decide(num >= 0) else -_floordiv(-num, den)
+    if rounding == _d.ROUND_UP:  # away from zero
+        return -_floordiv(-num, den) if decide(num >= 0) else _floordiv(num, den)
+    raise Unsupported("decimal rounding mode %r" % (rounding,))
+
+
+def _round_int_concrete(num, den, rounding):
+    f = F(num, den)
+    lo = f.numerator // f.denominator  # floor
+    if f.denominator == 1:
+        return lo
+    hi = lo + 1
+    twice = 2 * (f - lo)  # 0 < twice < 2
+    if rounding == _d.ROUND_FLOOR:
+        return lo
+    if rounding == _d.ROUND_CEILING:
+        return hi
+    if rounding == _d.ROUND_DOWN:
+        return lo if f >= 0 else hi
+    if rounding == _d.ROUND_UP:
+        return hi if f >= 0 else lo
+    if twice > 1:
+        return hi
+    if twice < 1:
+        return lo
+    if rounding == ROUND_HALF_UP:
+        return hi if f >= 0 else lo
+    if rounding == _d.ROUND_HALF_DOWN:
+        return lo if f >= 0 else hi
+    if rounding == ROUND_HALF_EVEN:
+        return lo if lo % 2 == 0 else hi
     raise Unsupported("decimal rounding mode %r" % (rounding,))
 
 
